@@ -539,6 +539,38 @@ def rule_r27(body, hits, idxs):
     return body
 
 
+def rule_r30(body, hits):
+    """R30: Result combinators applied to a closure literal are replaced by their definitions (core::result):
+         R.map(|v| E)     -> (match R { Ok(v) => Ok(E), Err(__e) => Err(__e) })
+         R.map_err(|e| E) -> (match R { Ok(__o) => Ok(__o), Err(e) => Err(E) })
+    (unit-specific: only for units whose `.map(` receivers are Results).  A function that does not use them (a developer
+    wrote the `match` by hand) is left as it is, so both shapes verify against the same contract."""
+    count = 0
+    while True:
+        m = mask(body)
+        mm = re.search(r"\.\s*(map_err|map)\(\s*\|", m)
+        if not mm:
+            break
+        dot = mm.start()
+        start = recv_start(m, dot)
+        recv = body[start:dot].strip()
+        op = m.index("(", dot)
+        cl = match_close(m, op)
+        clo = body[op + 1:cl].strip()
+        cm = re.match(r"\|(.*?)\|\s*(.*)$", clo, re.S)
+        if not cm:
+            raise AnchorLost("R30: closure literal expected")
+        par, e = cm.group(1).strip(), cm.group(2).strip().rstrip(",").strip()
+        if mm.group(1) == "map":
+            rep = "(match %s { Ok(%s) => Ok(%s), Err(__e) => Err(__e) })" % (recv, par, e)
+        else:
+            rep = "(match %s { Ok(__o) => Ok(__o), Err(%s) => Err(%s) })" % (recv, par, e)
+        body = body[:start] + rep + body[cl + 1:]
+        count += 1
+    hits["R30"] = hits.get("R30", 0) + count
+    return body
+
+
 def apply_rules(body, rules, hits):
     for r in rules:
         if r not in RULES:
@@ -850,7 +882,7 @@ class Extractor:
             hits["R17"] = hits.get("R17", 0) + 1
         for key, val in opts:
             if key == "prerules":
-                body = apply_rules(body, [r for r in val.split() if r not in ("R14", "R15", "R16", "R18", "R22", "R24", "R25", "R26", "R27")], hits)
+                body = apply_rules(body, [r for r in val.split() if r not in ("R14", "R15", "R16", "R18", "R22", "R24", "R25", "R26", "R27", "R30")], hits)
                 if "R16" in val.split():
                     at = [v for k, v in opts if k == "acctype"]
                     body = rule_r16(body, hits, at[0].strip() if at else None)
@@ -864,6 +896,8 @@ class Extractor:
                     body = rule_r25(body, hits)
                 if "R26" in val.split():
                     body = rule_r26(body, hits)
+                if "R30" in val.split():
+                    body = rule_r30(body, hits)
                 if "R27" in val.split():
                     bt = [v for k, v in opts if k == "btfor"]
                     body = rule_r27(body, hits, [int(x) for x in (bt[0].split() if bt else ["0"])])
@@ -976,6 +1010,11 @@ class Extractor:
                     raise AnchorLost("fn %s: loop #%d not found" % (fname, n))
                 ks, ob = wl[n]
                 edits.append((ob, ob, "\n" + val.strip() + "\n"))
+            elif key == "bodystart":
+                if not SPEC_ONLY.match(val):
+                    raise TemplateError("inserted text must be spec-only: " + val[:40])
+                pos = body.index("{") + 1
+                edits.append((pos, pos, " " + val.strip() + " "))
             elif key.startswith("before ") or key.startswith("after "):
                 which, _, anchor = key.partition(" ")
                 anchor = anchor.strip().strip('"')
